@@ -269,6 +269,9 @@ class Interp:
             return self.eval(e["sub"][1]) if self.truth(self.eval(e["sub"][0])) else self.eval(e["sub"][2])
         if i in ("vector", "array"):
             return tuple(self.eval(s) for s in e["sub"])
+        if i == "string_constant":
+            val = nsub(e, "value")["id"]; n = self.cells(nsub(e, "type"))
+            return tuple(([ord(ch) for ch in val] + [0] * n)[:n])
         if i == "side_effect":
             raise ExecError("side effect expression: " + nsub(e, "statement")["id"])
         raise ExecError("unsupported expression " + i)
